@@ -66,11 +66,16 @@ fn new_vm(optimize: bool) -> RootedThread {
 /// `prelude`: the standard library modules are written against the implicit prelude (those
 /// that are not say `//@NO-IMPLICIT-PRELUDE` themselves); generated programs do without it.
 fn new_vm_with(optimize: bool, prelude: bool) -> RootedThread {
+    new_vm_full(optimize, prelude, true)
+}
+
+fn new_vm_full(optimize: bool, prelude: bool, debug_info: bool) -> RootedThread {
     let vm = gluon::VmBuilder::new().build();
     {
         let mut db = vm.get_database_mut();
         db.set_implicit_prelude(prelude);
         db.set_optimize(optimize);
+        db.set_emit_debug_info(debug_info);
         db.add_module("c04.lib".into(), LIB_SRC);
     }
     gluon::import::add_extern_module(&vm, "c04.host", |thread| {
@@ -87,7 +92,7 @@ fn new_vm_with(optimize: bool, prelude: bool) -> RootedThread {
 // canonical outcomes of real runs
 // ---------------------------------------------------------------------------------------------
 fn canon_value(v: ValueRef<'_>, out: &mut String, depth: u32) {
-    if depth > 100 {
+    if depth > 12 {
         out.push_str("(deep)");
         return;
     }
@@ -580,6 +585,9 @@ enum Stmt {
     Let(String, E),
     LetFn(String, Vec<String>, E),
     Destr(Vec<(&'static str, String)>, E),
+    /// `rec let r = { .. } let s = { .. } let h x = ..`: value members (no parameters) and function
+    /// members of one recursive group
+    RecGroup(Vec<(String, Vec<String>, E)>),
 }
 
 #[derive(Clone, Debug)]
@@ -724,6 +732,26 @@ fn print_prog(p: &Prog) -> String {
             Stmt::LetFn(f, ps, e) => {
                 pr.w(&format!("let {} {} = ", f, ps.join(" ")));
                 pr.atom(e);
+            }
+            Stmt::RecGroup(ms) => {
+                for (i, (f, ps, e)) in ms.iter().enumerate() {
+                    if i == 0 {
+                        pr.w("rec let ");
+                    } else {
+                        pr.nl(4);
+                        pr.w("let ");
+                    }
+                    pr.w(f);
+                    for p in ps {
+                        pr.w(" ");
+                        pr.w(p);
+                    }
+                    pr.w(" = ");
+                    pr.atom(e);
+                }
+                // without `in` the following `let`s would join the recursive group
+                pr.nl(0);
+                pr.w("in");
             }
             Stmt::Destr(fs, e) => {
                 pr.w("let { ");
@@ -934,12 +962,90 @@ impl<'a> Gen<'a> {
             _ => E::If(Box::new(self.cond(d1, sc)), Box::new(self.mk(Ty::F2, d1, sc)), Box::new(self.mk(Ty::F2, d1, sc))),
         }
     }
+    /// A recursive group with value members: records whose function fields refer to LATER members
+    /// (not yet initialised when the field is built) and to their own data field, plus function
+    /// members using the records.  References only go forward, so calls terminate.  Only some members
+    /// enter the scope: the others are dead, or referenced from dead members only.  The data field
+    /// of a member may have an effect or fail when the group is made.
+    fn rec_group(&mut self, depth: u32, sc: &mut Vec<(String, Ty)>) -> Stmt {
+        let k = 1 + self.rng.below(3) as usize;
+        let names: Vec<String> = (0..k).map(|_| self.fresh("rv")).collect();
+        let mut members = vec![];
+        let d1 = depth.saturating_sub(1);
+        for i in 0..k {
+            let base = sc.len();
+            for j in (i + 1)..k {
+                sc.push((names[j].clone(), Ty::R));
+            }
+            let f = if self.rng.chance(1, 3) {
+                // own data field, read when the function runs
+                let x = self.fresh("x");
+                E::Lam(
+                    vec![x.clone()],
+                    Box::new(E::Prim("#Int+", Box::new(E::Proj(Box::new(E::Var(names[i].clone())), "n")), Box::new(E::Var(x)))),
+                )
+            } else if i + 1 < k && self.rng.chance(1, 2) {
+                let x = self.fresh("x");
+                let callee = E::Proj(Box::new(E::Var(names[i + 1].clone())), "f");
+                E::Lam(vec![x.clone()], Box::new(E::Call(Box::new(callee), vec![E::Var(x)])))
+            } else {
+                let x = self.fresh("x");
+                sc.push((x.clone(), Ty::Int));
+                let b = self.body_int(d1, sc);
+                sc.pop();
+                E::Lam(vec![x], Box::new(b))
+            };
+            // (the other fields are built when the group is made: they must not look at members that
+            // are not initialised yet)
+            sc.truncate(base);
+            let g = self.gen_f2(d1, sc);
+            let n = match self.rng.below(5) {
+                0 => E::Call(Box::new(E::Proj(Box::new(E::Var("host".into())), "eff")), vec![self.int_lit()]),
+                1 => E::Prim("#Int/", Box::new(self.int_lit()), Box::new(E::Int(0))),
+                2 => self.mk(Ty::Int, d1, sc),
+                _ => self.int_lit(),
+            };
+            members.push((names[i].clone(), vec![], E::Rec(vec![("f", f), ("g", g), ("n", n)])));
+        }
+        let mut fnames = vec![];
+        for _ in 0..self.rng.below(3) {
+            let h = self.fresh("rh");
+            let x = self.fresh("x");
+            let base = sc.len();
+            for nm in &names {
+                sc.push((nm.clone(), Ty::R));
+            }
+            sc.push((x.clone(), Ty::Int));
+            let b = self.body_int(d1.max(1), sc);
+            sc.truncate(base);
+            members.push((h.clone(), vec![x], b));
+            fnames.push(h);
+        }
+        // shuffle function members between the value members now and then
+        if members.len() > 1 && self.rng.chance(1, 3) {
+            let last = members.pop().unwrap();
+            let at = self.rng.below(members.len() as u64 + 1) as usize;
+            members.insert(at, last);
+        }
+        for nm in names {
+            if self.rng.chance(1, 2) {
+                sc.push((nm, Ty::R));
+            }
+        }
+        for h in fnames {
+            if self.rng.chance(1, 2) {
+                sc.push((h, Ty::F1));
+            }
+        }
+        Stmt::RecGroup(members)
+    }
+
     fn prog(&mut self, depth: u32) -> Prog {
         let mut sc: Vec<(String, Ty)> = vec![];
         let n = 2 + self.rng.below(7);
         let mut stmts = vec![];
         for _ in 0..n {
-            match self.rng.below(20) {
+            match self.rng.below(22) {
                 0..=4 => stmts.push(Stmt::Let("_".into(), self.gen_int(depth.max(1), &mut sc))),
                 // (a bare expression statement `e1 <newline> e2` is monadic sequencing in Gluon: it
                 // needs a `flat_map` in scope, so discarding is always written `let _ = e`)
@@ -991,6 +1097,10 @@ impl<'a> Gen<'a> {
                     stmts.push(Stmt::Let(h.clone(), e));
                     sc.push((h, Ty::F1));
                 }
+                20 | 21 => {
+                    let st = self.rec_group(depth, &mut sc);
+                    stmts.push(st);
+                }
                 _ => {
                     let f = self.fresh("pf");
                     let n = self.fresh("pn");
@@ -1023,6 +1133,9 @@ impl<'a> Gen<'a> {
 struct Vms {
     off: RootedThread,
     on: RootedThread,
+    /// the same two settings with `emit_debug_info` off (the default is on)
+    off_nd: RootedThread,
+    on_nd: RootedThread,
     uses: usize,
     /// the library module as a global of the model's environment: (interner seeded with it, env s-expr)
     lib: Option<String>,
@@ -1030,7 +1143,7 @@ struct Vms {
 
 impl Vms {
     fn new() -> Vms {
-        Vms { off: new_vm(false), on: new_vm(true), uses: 0, lib: None }
+        Vms { off: new_vm(false), on: new_vm(true), off_nd: new_vm_full(false, false, false), on_nd: new_vm_full(true, false, false), uses: 0, lib: None }
     }
     fn renew(&mut self) {
         *self = Vms::new();
@@ -1256,6 +1369,28 @@ fn do_program_inner(vms: &mut Vms, out: &mut Out, name: &str, family: &str, src:
         // the program imports a module the model's environment does not contain
         out.hist.add("eval_core:skipped-other-imports");
     }
+    // emit_debug_info must not matter at all, whatever the optimisation setting
+    {
+        vms.uses += 1;
+        let off_nd = run(&vms.off_nd, src);
+        let on_nd = run(&vms.on_nd, src);
+        if off_nd != r.off || on_nd != r.on {
+            out.behav_diffs += 1;
+            out.hist.add("behaviour:debug-info-differs");
+            writeln!(
+                out.behav,
+                "{}",
+                serde_json::json!({"kind": "debug-info", "name": name, "family": family, "source": src,
+                                   "off": r.off.canonical(), "on": r.on.canonical(),
+                                   "shrunk_name": name, "shrunk_source": src,
+                                   "shrunk_off": format!("debug info on: optimize=false {} optimize=true {}", r.off.canonical(), r.on.canonical()),
+                                   "shrunk_on": format!("debug info off: optimize=false {} optimize=true {}", off_nd.canonical(), on_nd.canonical())})
+            )
+            .unwrap();
+        } else {
+            out.hist.add("debug-info:same-outcome");
+        }
+    }
     if !allowed(&r.off, &r.on) {
         out.behav_diffs += 1;
         out.hist.add("behaviour:differs");
@@ -1279,7 +1414,7 @@ fn do_program_inner(vms: &mut Vms, out: &mut Out, name: &str, family: &str, src:
         writeln!(
             out.behav,
             "{}",
-            serde_json::json!({"name": name, "family": family, "source": src, "off": r.off.canonical(), "on": r.on.canonical(),
+            serde_json::json!({"kind": "optimize", "name": name, "family": family, "source": src, "off": r.off.canonical(), "on": r.on.canonical(),
                                "shrunk_name": sname, "shrunk_source": ssrc, "shrunk_off": soff, "shrunk_on": son})
         )
         .unwrap();
@@ -1352,6 +1487,7 @@ fn do_module(vms: &mut Vms, out: &mut Out, module: &str) {
             out.hist.addn("std-ir-nodes", pair.nodes_off as u64);
             out.hist.addn("std-ir-nodes-removed", (pair.nodes_off - pair.nodes_on.min(pair.nodes_off)) as u64);
             out.line("V", module, "std-module", "", &format!("V {} {}", pair.off, pair.on), "accept");
+            out.line("C", module, "std-module", "", &format!("C {} {}", pair.off, pair.on), "counts");
         }
         Ok(Err(e)) => {
             out.hist.add("std-module:not-compiled");
@@ -1477,7 +1613,7 @@ fn main() {
 
     // 3. every standard library module
     if want("std") {
-        vms = Vms { off: new_vm_with(false, true), on: new_vm_with(true, true), uses: 0, lib: None };
+        vms = Vms { off: new_vm_with(false, true), on: new_vm_with(true, true), off_nd: new_vm_full(false, true, false), on_nd: new_vm_full(true, true, false), uses: 0, lib: None };
         for m in std_modules(&repo) {
             do_module(&mut vms, &mut out, &m);
         }
